@@ -1011,7 +1011,8 @@ func varyRow(row any, i int) any {
 		}
 		// fields whose tag narrows their values: vary within their own alphabet
 		sf := v.Type().Field(f)
-		if tag := sf.Tag.Get("parquet"); strings.Contains(tag, "uuid") || strings.Contains(tag, "date") || strings.Contains(tag, "time(") || strings.Contains(tag, "timestamp(millisecond)") {
+		// ([16]byte uuid fields take any bytes: they vary freely below)
+		if tag := sf.Tag.Get("parquet"); (strings.Contains(tag, "uuid") && sf.Type.Kind() == reflect.String) || strings.Contains(tag, "date") || strings.Contains(tag, "time(") || strings.Contains(tag, "timestamp(millisecond)") {
 			if sf.Type.Kind() == reflect.String && strings.Contains(tag, "uuid") {
 				a, b := next(), next()
 				fv.SetString(fmt.Sprintf("%08x-%04x-%04x-%04x-%012x", uint32(a), uint16(a>>32), uint16(a>>48), uint16(b), b>>16))
